@@ -568,7 +568,19 @@ impl Check for C17 {
         let mut rng = rng_from(case_seed(seed, idx));
         let backend = ["sqlite", "lmdb", "mem"][(idx % 3) as usize];
         let nks = rng.gen_range(1..=3);
-        let kss: Vec<String> = (0..nks).map(|i| format!("ks-{i}")).collect();
+        // keyspace names: mostly plain, sometimes names that a backend could confuse with one
+        // another (case, SQL quoting and LIKE wildcards, prefixes, blanks, non-ASCII, long; not the empty
+        // name, which LMDB refuses with MDB_BAD_VALSIZE - a clean error on an input no caller uses)
+        let family: Vec<String> = match rng.gen_range(0..14) {
+            0 => vec!["Users".into(), "users".into(), "USERS".into()],
+            1 => vec!["ks'1".into(), "ks\"1".into(), "ks;--".into()],
+            2 => vec!["ks_1".into(), "ks%1".into(), "ksX1".into()],
+            3 => vec!["\u{43a}\u{43b}\u{44e}\u{447}".into(), "ks 1".into(), " ks1".into()],
+            4 => vec!["a".into(), "aa".into(), "aaa".into()],
+            5 => vec![" ".into(), "  ".into(), "k".repeat(200)],
+            _ => (0..3).map(|i| format!("ks-{i}")).collect(),
+        };
+        let kss: Vec<String> = family.into_iter().take(nks).collect();
         let mut pool: Vec<u64> = vec![0, 1, (1u64 << 63) - 1, 1u64 << 63, u64::MAX];
         for _ in 0..rng.gen_range(1..=4) {
             pool.push(rng.gen());
